@@ -96,10 +96,10 @@ pub fn run_mode(ctx: &mut Ctx, mode: Mode) -> Result<(), Violation> {
     ctx.level = "fault_enumeration";
     let lens: Vec<usize> = match ctx.tier {
         Tier::Quick => vec![0, 1, 2, 15, 16, 17, 31, 32, 33, 63, 64, 65, 127, 128, 129],
-        Tier::Thorough => (0..=130).collect(),
+        Tier::Thorough => (0..=200).collect(),
     };
     let kinds = [Kind::SecretBox, Kind::Box, Kind::Precalc, Kind::Sealed, Kind::Stream];
-    let fills = ctx.tier.pick(2usize, 3);
+    let fills = ctx.tier.pick(2usize, 4);
     let mut items = vec![];
     for &k in &kinds {
         for &l in &lens {
@@ -209,7 +209,7 @@ pub fn run_mode(ctx: &mut Ctx, mode: Mode) -> Result<(), Violation> {
         "exhaustive_scope".into(),
         json!(format!(
             "for each enumerated (kind, message length in {:?}, {} fills): EVERY single-bit flip of tag/ciphertext/nonce/key/ephemeral key/header/AD, every truncation 1..=wire length, extensions {{1,2,15,16,17,64}} x {{zero,random}}; keys/nonces/messages themselves are seeded samples",
-            if ctx.tier == Tier::Quick { "0,1,2,15,16,17,31,32,33,63,64,65,127,128,129".to_string() } else { "0..=130".to_string() },
+            if ctx.tier == Tier::Quick { "0,1,2,15,16,17,31,32,33,63,64,65,127,128,129".to_string() } else { "0..=200".to_string() },
             fills
         )),
     );
